@@ -18,7 +18,7 @@ pub fn def() -> CheckDef {
         },
         gen,
         run,
-        rule: "seeded histories (<= 30 ops) in which about half of the path arguments are near-misses: missing parent, wrong type both ways, existing name, non-empty storage, root removal, paths escaping the root, invalid names, out-of-range seeks, set_storage_clsid on a stream, setters on a missing path - at every point of a history, also while handles hold unflushed data. For every call refused with NotFound / AlreadyExists / InvalidInput: the image hash is unchanged (write calls made during a refused call are counted as a probe, not judged - the property speaks of the bytes), and the rest of the history still agrees with the model. Non-trivial: >= 1 refused call checked and >= 1 successful mutation; distinct = distinct (seam log, final image) hash.",
+        rule: "seeded histories (<= 30 ops) in which about half of the path arguments are near-misses: missing parent, wrong type both ways, existing name, non-empty storage, root removal, paths escaping the root, invalid names, out-of-range seeks, set_storage_clsid on a stream, setters on a missing path - at every point of a history, also while handles hold unflushed data. For every call refused with NotFound / AlreadyExists / InvalidInput: the image hash is unchanged (write calls made during a refused call are counted as a probe, not judged - the property speaks of the bytes), and the rest of the history still agrees with the model. Every tenth case is a stale-handle scenario (src/stale.rs): a single call through a handle whose stream was removed that is refused (NotFound / InvalidInput) must leave the bytes, the handle's len() and its position as they were. Non-trivial: >= 1 refused call checked and >= 1 successful mutation; distinct = distinct (seam log, final image) hash.",
         assumptions: &["reference model as C01 decides which calls must be refused"],
         cpu_limit_s: 300,
         fault_kinds: "none (seam-level write counter is the oracle)",
@@ -33,6 +33,16 @@ pub fn flags() -> Flags {
 
 pub fn gen(seed: u64, idx: u64, _tier: Tier) -> Case {
     let mut rng = Rng::for_case(seed, "C10", idx);
+    if idx % 10 == 7 {
+        // a handle kept across the removal of its own stream (src/stale.rs): calls through it are
+        // refused with NotFound / InvalidInput - and a refused call has no effect, neither on the
+        // bytes nor on what the handle reports afterwards
+        let version = if rng.chance(1, 2) { 3 } else { 4 };
+        let mut c = Case::new("C10", "stale-handle", version);
+        c.bufsize = *rng.pick(gen::BUFSIZES);
+        c.ops = crate::stale::gen_ops(&mut rng);
+        return c;
+    }
     let k = Knobs { max_ops: 30, near_miss: &[35, 50, 65], invalid_names: true, ..DEFAULT_KNOBS };
     let w = match rng.below(3) {
         0 => gen::c01_weights(),
@@ -43,6 +53,9 @@ pub fn gen(seed: u64, idx: u64, _tier: Tier) -> Case {
 }
 
 pub fn run(case: &Case, known: &BTreeSet<String>) -> Outcome {
+    if case.mode == "stale-handle" {
+        return crate::stale::run(case, crate::stale::Judge { property: "C10", image: false, bystanders: false, refusals: true });
+    }
     let mut o = runner::run_history(case, &flags(), known);
     // Second clause of the property: "every subsequently observable result is the same as if the
     // call had not been made".  A divergence from the model counts for C10 only if it goes
